@@ -33,22 +33,6 @@ namespace Fancy
 
 /-! ## the shape side condition -/
 
-mutual
-/-- no `\Z` delegate (`inner = "\n*$"`, `size = 0`) outside a look-around -/
-def noBareEndZ : Expr → Bool
-  | .delegate inner size _ => !(size == 0 && inner == ['\n', '*', '$'])
-  | .concat es => noBareEndZAll es
-  | .alt es => noBareEndZAll es
-  | .group _ e => noBareEndZ e
-  | .look _ _ => true
-  | .repeat e _ _ _ => noBareEndZ e
-  | .atomic e => noBareEndZ e
-  | .cond c y n => noBareEndZ c && noBareEndZ y && noBareEndZ n
-  | _ => true
-def noBareEndZAll : List Expr → Bool
-  | [] => true
-  | e :: es => noBareEndZ e && noBareEndZAll es
-end
 
 /-! ## repetition loops with equal bounds -/
 
